@@ -249,8 +249,8 @@ def run(ctx):
     proof_ok = ctx.prove("Prop_C17.v")
     sp = core.import_sigpy()
     rng = ctx.rng
-    n = ctx.n(70, 900)
-    n_rec = ctx.n(10, 120)
+    n = ctx.n(100, 900)
+    n_rec = ctx.n(14, 120)
     cases = corpus()
     while len(cases) < n - n_rec:
         cases.append(gen_case(rng))
